@@ -18,7 +18,7 @@ CONFIG = {
         "theorems are stated over the rune slice []rune(input) (parse_runes); parse_file = parse_runes after utf8_decode by definition; 'inside the input' is proved both for lines of the rune slice and for strings.Split(input, newline) on bytes with columns counted in runes of the line (C11_valid_is_inside_bytes, from a proof that []rune conversion commutes with splitting at newlines)",
         "recursion depth: popValue recurses once per '[' and is bounded by maxValueDepth = 10000 since fix e710ab8 (the model's pop_value carries the same depth argument and bound; TokensGen reads the constant and counts the guarded recursive call); all other routines of lexer, walker, fragmentsToFile and humanString are loops. Gallina has no stack, so 'never panics' in the model covers stack exhaustion only through this bound, which the run exercises with 2,000,000 nested brackets in a child process",
         "a diagnostic is modelled as range + message bytes (errpos.Err.Err.Error()): the lexer's errf texts, unexpectedTokenError.msg() with Token.String() (literal cut to 20 bytes) and the expected-type list of the error site, the two fragmentsToFile texts, the nesting-bound text; the texts, formats (%s %c %d only) and expected sets are read from the Go source by the translator (TokensGen.func_strings, walker_expected), so a reworded message follows the code; compared byte for byte in Coq on every case. unexpectedTokenError.context ('after ...') is not part of the diagnostic (addError uses msg()) and is not modelled",
-        "tree nodes covered by C11_positions_valid: block/header, assignment, description, reference, ident, tag, scalar value, array value, trailing comment, header description; the token copies kept inside nodes (MarkToken, Description.Tokens, Ident.Token, Value.token, Comment.Token) are lexer tokens, covered by C11_lexer_total_and_ordered, not re-stated per node",
+        "tree nodes covered by C11_positions_valid: block/header, assignment, description, reference, ident, tag, scalar value, array value, trailing comment, header description, and the token copies kept inside nodes: TagValue.MarkToken (when there is a mark), Description.Tokens, Value.token; Ident.Token and Comment.Token / CloseBlock.Token have the range of their node (same token) and are not dumped separately",
         "humanString is modelled as its guards and the three index / slice operations that can panic; the rendered text is not modelled (the run compares branch, context-line count and caret width)",
         "Walk on a token slice that the lexer did not produce (tokens of type EOF, empty slice with a pending pop) is outside the theorems: ParseFile only passes lexer output",
     ],
